@@ -24,17 +24,18 @@ Open Scope string_scope.
 """
 
 
-def make_funcs(spec):
+def make_funcs(spec, seed=1):
+    """tagging callables; about half of the values are numpy object arrays (as real outputs are array data)"""
     funcs = []
     for k, t in enumerate(spec["tasks"]):
         n = t["nout"]
         if n == 1:
             def f(*args, _k=k, **kwargs):
-                return ("T", _k, 0, args, tuple(sorted(kwargs.items())))
+                return sc.wrap_val(("T", _k, 0, args, tuple(sorted(kwargs.items()))), (_k + seed) % 2 == 0)
         else:
             def f(*args, _k=k, _n=n, **kwargs):
                 for o in range(_n):
-                    yield ("T", _k, o, args, tuple(sorted(kwargs.items())))
+                    yield sc.wrap_val(("T", _k, o, args, tuple(sorted(kwargs.items()))), (_k + o + seed) % 2 == 0)
         funcs.append(f)
     return funcs
 
@@ -82,7 +83,7 @@ def executor(cluster, w, t, h):
 
 
 def run_case_real(spec, seed, mode):
-    return sc.run_case(spec, seed, mode, executor=executor, funcs=make_funcs(spec))
+    return sc.run_case(spec, seed, mode, executor=executor, funcs=make_funcs(spec, seed))
 
 
 def value_oracle(r, res, cj):
@@ -92,7 +93,7 @@ def value_oracle(r, res, cj):
     for d, v in r["outputs"].items():
         if v is None:
             continue   # not delivered: reported by post_checks as requested-output-missing
-        if v != ref[d]:
+        if v != sc.norm_value(ref[d]):
             res.fail("wrong-output-value", f"requested output {d}: distributed run returned {str(v)[:120]}, sequential evaluation gives {str(ref[d])[:120]}", cj)
 
 
@@ -103,7 +104,7 @@ def real_to_symbolic(r):
     ref = reference(r["spec"])
     inv = {}
     for d, v in ref.items():
-        inv.setdefault(repr(v), d)
+        inv.setdefault(repr(sc.norm_value(v)), d)
     outs = {}
     for d, v in r["outputs"].items():
         outs[d] = None if v is None else ("VAL", inv.get(repr(v), (999, 999)))
